@@ -104,6 +104,22 @@ class ImmGridWorld(GridWorld):
         return imm_step(self, super().step, sim, events)
 
 
+from .w_auto import AutoWorld
+
+
+class ImmAutoWorld(AutoWorld):
+    def __init__(self, **kw):
+        super().__init__(**kw)
+        self.name = self.name + "/imm"
+
+    def step(self, sim, events):
+        return imm_step(self, super().step, sim, events)
+
+
+def make_auto(**kw):
+    return ImmAutoWorld(**kw)
+
+
 def make_grid(**kw):
     return ImmGridWorld(**kw)
 
